@@ -26,6 +26,9 @@ pub enum Universe {
     /// en-passant aliasing family: capturer pawn + double-pushed pawn beside it (ep set) + one more pawn of either
     /// colour anywhere on the capturer's file or the victim's file; kings on a few fixed safe squares; both colours
     UEA,
+    /// castling x en passant product: kings on e1/e8, every (rook subset, rights subset) of UC, a capturer/victim pawn pair
+    /// on every file pair, with the en-passant flag set and not set, both colours: all (rights, ep) state bytes on one board
+    UCE,
     /// promotion family: a pawn on its 7th rank on each file with 0..=2 capturable enemy pieces (r,n,q) on the adjacent 8th-rank squares and optionally a blocker in front, kings on a fixed pair of safe squares sets
     UP,
 }
@@ -41,6 +44,7 @@ impl Universe {
             Universe::UP => "UP".into(),
             Universe::UCK { extras } => format!("UCK+{}", extras),
             Universe::UEA => "UEA".into(),
+            Universe::UCE => "UCE".into(),
         }
     }
 
@@ -49,7 +53,7 @@ impl Universe {
         match self {
             Universe::U2 | Universe::U3 | Universe::U4 { .. } | Universe::UE { .. } | Universe::UCK { .. } => 64,
             Universe::UEA => 8,
-            Universe::UC { .. } => 81,
+            Universe::UC { .. } | Universe::UCE => 81,
             Universe::UP => 8,
         }
     }
@@ -87,6 +91,32 @@ impl Universe {
             Universe::UP => up_unit(unit as i8, f),
             Universe::UCK { extras } => uck_unit(unit as u8, *extras, f),
             Universe::UEA => uea_unit(unit as i8, f),
+            Universe::UCE => {
+                let base = uc_base(unit);
+                for cf in 0..8i8 {
+                    for df in [-1i8, 1] {
+                        let vf = cf + df;
+                        if !(0..8).contains(&vf) {
+                            continue;
+                        }
+                        let mut p = base;
+                        p.b[sq(4, cf) as usize] = code(P, true);
+                        p.b[sq(4, vf) as usize] = code(P, false);
+                        p.white = true;
+                        for with_ep in [true, false] {
+                            let mut q = p;
+                            q.ep = if with_ep { Some(sq(5, vf)) } else { None };
+                            if q.sane() {
+                                f(q);
+                            }
+                            let m = q.mirror();
+                            if m.sane() {
+                                f(m);
+                            }
+                        }
+                    }
+                }
+            }
         }
     }
 }
